@@ -44,6 +44,15 @@ def shift(t, k):
 @st.composite
 def _cases(draw, max_size=10):
     s = draw(gen.score_sets(max_size=max_size, modes=MODES, mag=1e6, containers=("f64", "f64", "f32", "list", "neg-int", "pos-int", "neg-f32", "f128", "series")))
+    if draw(st.integers(0, 9)) == 0:
+        # scores held in a narrow signed integer type, reaching the ends of its range (the smallest value has
+        # no negative in that type)
+        dt = draw(st.sampled_from(["int8", "int16", "int32"]))
+        lo, hi = {"int8": (-128, 127), "int16": (-32768, 32767), "int32": (-2**31, 2**31 - 1)}[dt]
+        near = st.one_of(st.integers(lo, lo + 6), st.integers(hi - 6, hi), st.integers(-3, 3))
+        n, m = draw(st.integers(0, max_size)), draw(st.integers(0, max_size))
+        s = dict(s, pos=draw(st.lists(near, min_size=n, max_size=n)), neg=draw(st.lists(near, min_size=m, max_size=m)),
+                 mode="int", container=dt, arr="narrow-int")
     pops = [len(s["pos"]) + s["ep"], len(s["neg"]) + s["en"],
             len(s["pos"]) + len(s["neg"]) + s["ep"] + s["en"]]
     k = draw(st.sampled_from([1, 2, 3, 4, 4, 5, 6, 6]))
